@@ -291,7 +291,92 @@ def check_passthrough(case):
     return {"nt": len(case["xs"]) >= 2, "classes": ["job" if case["via_job"] else "direct"]}
 
 
+# ---------------------------------------------------------------- several requests in flight at once
+
+@st.composite
+def overlap_cases(draw):
+    return {"threads": draw(st.integers(2, 4)), "rounds": draw(st.integers(1, 3)),
+            "train_step": draw(st.sampled_from([-1, 2, 3, 4])), "kind": draw(st.sampled_from(["minimal", "scikit"]))}
+
+
+def check_overlap(case):
+    """the parallel evaluator sends several requests through one surrogate object at the same time (worker threads): a
+    barrier inside the objective makes the true evaluations of one round overlap; the accounting must still add up"""
+    import threading
+    from artap.problem import Problem
+    from artap.individual import Individual
+    from artap.surrogate import SurrogateModelPredict
+    from artap.surrogate_scikit import SurrogateModelScikit
+    nthr, rounds = case["threads"], case["rounds"]
+    barrier = threading.Barrier(nthr)
+    lock = threading.Lock()
+    log = []
+
+    class P(Problem):
+        def set(self, **kw):
+            self.parameters = [{"name": "a", "bounds": [-5, 5]}, {"name": "b", "bounds": [-5, 5]}]
+            self.costs = [{"name": "f"}]
+
+        def evaluate(self, individual):
+            try:
+                barrier.wait(timeout=20)
+            except threading.BrokenBarrierError:
+                pass
+            val = [float(individual.vector[0]) + 3.0 * float(individual.vector[1])]
+            with lock:
+                log.append((list(individual.vector), val))
+            return val
+
+    class Minimal(SurrogateModelPredict):
+        def train(self):
+            pass
+
+        def predict(self, x, *a):
+            return None
+
+        def init_default_regressor(self):
+            self.regressor = object()
+
+    prob = P()
+    errs = []
+    try:
+        with guard("overlap"):
+            if case["kind"] == "scikit":
+                sur = SurrogateModelScikit(prob)
+                sur.regressor = Stub()
+            else:
+                sur = Minimal(prob)
+            sur.train_step = case["train_step"]
+            prob.surrogate = sur
+
+        def work(t):
+            try:
+                for r in range(rounds):
+                    prob.surrogate.evaluate(Individual([float(t), float(r)]))
+            except BaseException as e:  # noqa
+                errs.append(e)
+        ths = [threading.Thread(target=work, args=(t,)) for t in range(nthr)]
+        for th in ths:
+            th.start()
+        for th in ths:
+            th.join(60)
+        if errs:
+            raise Violation("overlap", "raises-under-threads", "surrogate raised %r with %d requests in flight" % (
+                errs[0], nthr))
+        n = nthr * rounds
+        with guard("overlap"):
+            ec, pc, nx, ny = sur.eval_counter, sur.predict_counter, len(sur.x_data), len(sur.y_data)
+        if len(log) != n or ec + pc != n or ec != n or nx != n or ny != n:
+            raise Violation("overlap", "accounting-lost-under-overlap", "%d requests in %d overlapping rounds: %d objective "
+                            "calls, eval/predict counters %d/%d, training set %d/%d samples" % (
+                                n, rounds, len(log), ec, pc, nx, ny))
+    finally:
+        dispose(prob)
+    return {"nt": True, "classes": [case["kind"], "threads%d" % nthr, "rounds%d" % rounds]}
+
+
 CLAUSES = [
     Clause("predicting", histories(), check_history, quick=800, thorough=8000, quick_shards=4),
     Clause("pass-through", passthrough(), check_passthrough, quick=300, thorough=3000),
+    Clause("overlap", overlap_cases(), check_overlap, quick=40, thorough=400, quick_shards=2),
 ]
